@@ -2,7 +2,11 @@
 
 package cache
 
-import "time"
+import (
+	"time"
+
+	internalcache "github.com/semihalev/sdns/internal/cache"
+)
 
 // Accessors for the C16 driver (expiry-cleanup route of the answer caches).
 
@@ -22,4 +26,13 @@ func VerifC16EntryCut() *CacheEntry {
 	e := &CacheEntry{stored: time.Now(), ttl: time.Hour}
 	e.cutUntil = e.stored.Add(-time.Minute)
 	return e
+}
+
+// VerifC16FailEntries exposes the table behind a FailureCache; VerifC16FailHash
+// the table key of an exact question (what record / ResetQuestion use).
+func VerifC16FailEntries(c *FailureCache) *internalcache.Cache { return c.entries }
+
+// VerifC16FailHash is failureQuestionHash of the normalised key.
+func VerifC16FailHash(k FailureQuestionKey) uint64 {
+	return failureQuestionHash(normalizeFailureQuestionKey(k))
 }
